@@ -46,6 +46,22 @@ def verus_units_for(pid):
     return units
 
 
+def vacuity_targets(unit, pid):
+    tpl = os.path.join(VERIF, 'verus', 'units', unit + '.rs')
+    keys = []
+    for ln in open(tpl, encoding='utf-8'):
+        st = ln.strip()
+        if not st.startswith('//@fn'):
+            continue
+        import vx_gen
+        args, kv = vx_gen.parse_args(st[len('//@fn'):])
+        if 'ext' in kv or 'assumed' in kv:
+            continue
+        if pid in kv.get('props', '').split(','):
+            keys.append('%s::%s' % (args[1], args[2]))
+    return keys
+
+
 def load_known():
     p = os.path.join(VERIF, 'known_findings.json')
     if not os.path.exists(p):
@@ -96,7 +112,9 @@ def main():
         for u in units:
             jobs.append(('verus', u, ex.submit(vx_run.run_unit, u, None, P.RLIMIT.get(u, 30), False)))
             if tier == 'thorough':
-                jobs.append(('vacuity', u, ex.submit(vx_run.run_unit, u, None, P.RLIMIT.get(u, 30), True)))
+                # vacuity twins: one per contracted (non-trusted) function tagged with this property
+                for key in vacuity_targets(u, pid):
+                    jobs.append(('vacuity', u, ex.submit(vx_run.run_unit, u, None, P.RLIMIT.get(u, 30), key, vx_run.OUT, None, False)))
         kjob = None
         if info.get('kani'):
             import kx_run
@@ -109,8 +127,11 @@ def main():
     final = []
     for kind, u, r in results:
         if r['status'] == 'engine-failure' and all('rlimit' in e.lower() for e in r['engine_errors']) and r['engine_errors']:
-            r2 = vx_run.run_unit(u, None, 2 * P.RLIMIT.get(u, 30), kind == 'vacuity', seed=seed + 7)
-            r2['retried'] = True
+            if kind == 'vacuity':
+                final.append((kind, u, r))
+                continue
+            r2 = vx_run.run_unit(u, None, 2 * P.RLIMIT.get(u, 30), False, seed=seed + 7)
+            r2['retried'] = True  # noqa
             r = r2
         final.append((kind, u, r))
     results = final
@@ -133,20 +154,17 @@ def main():
     vacuity_report = []
     for kind, u, r in results:
         if kind == 'vacuity':
-            # every contracted, non-external function tagged with pid must FAIL its `false` probe
-            if r['status'] == 'engine-failure':
-                undecided.append('vacuity twin of %s: %s' % (u, '; '.join(r['engine_errors'])[:300]))
-                continue
-            failed_fns = set(f['function'] for f in r['failures'] if 'false' in f['text'] or f['kind'] != 'post')
-            probed = set(f['function'] for f in r['failures'] if f['kind'] == 'post' and f['text'].startswith('false'))
-            for fn in r['functions']:
-                if pid not in fn['props'] or fn['ext']:
-                    continue
-                nm = (vx_run.impl_type(fn['impl']) + '::' if fn['impl'] != '-' else '') + fn['name']
-                ok = nm in probed
-                vacuity_report.append({'function': nm, 'probe_failed_as_required': ok})
-                if not ok and nm not in P.DIVERGING:
-                    undecided.append('vacuous contract: `ensures false` verified for %s/%s' % (u, nm))
+            # the single probed function must FAIL its `false` postcondition clause
+            probed = [f for f in r['failures'] if f['kind'] == 'post' and f['text'].startswith('false')]
+            target = os.path.basename(r.get('gen_file', '?'))
+            if probed:
+                vacuity_report.append({'twin': target, 'function': probed[0]['function'], 'probe_failed_as_required': True})
+            elif r['status'] == 'engine-failure':
+                undecided.append('vacuity twin %s: %s' % (target, '; '.join(r['engine_errors'])[:300]))
+            else:
+                vacuity_report.append({'twin': target, 'probe_failed_as_required': False})
+                if not any(d in target for d in P.DIVERGING):
+                    undecided.append('vacuous contract: `ensures false` verified in %s' % target)
             continue
         if r['status'] == 'engine-failure':
             undecided.append('%s: %s' % (u, '; '.join(r['engine_errors'])[:400]))
@@ -183,9 +201,13 @@ def main():
         dropped += ['%s: %s' % (u, d) for d in r.get('meta', {}).get('dropped_statements', [])]
         for t in r.get('trust', []):
             trusted.append('%s: %s %s' % (u, t['kind'], t['decl']))
+        seen_obl = set()
         for f in r['failures']:
             if pid not in f['props']:
                 continue
+            if f['obligation'] in seen_obl:
+                continue
+            seen_obl.add(f['obligation'])
             failed_count += 1
             k = match_known(known, pid, f)
             if k:
